@@ -41,7 +41,7 @@ def hot_positions(hot, rng, per_call):
         firsts, seen = [], set()
         for p in lst:
             kind, ft, _ = p.split(":")
-            if kind in ("create", "sync", "setmeta", "open") and (kind, ft) not in seen:
+            if kind in ("create", "sync", "setmeta", "open", "close") and (kind, ft) not in seen:
                 seen.add((kind, ft))
                 firsts.append(p)
         rest = [p for p in lst if p not in firsts]
